@@ -808,7 +808,12 @@ class TextXMetaModel(DebugPrinter):
             if callback:
                 callback(other_model)
 
+        loaded_models = None
         if not model:
+            # models cached by earlier loads (they survive a failure of this one)
+            cached_ids = set()
+            if hasattr(self, "_tx_model_repository"):
+                cached_ids = {id(m) for m in self._tx_model_repository.all_models}
             # Read model from file
             if not model_str:
                 with open(file_name, encoding=encoding) as f:
@@ -822,9 +827,25 @@ class TextXMetaModel(DebugPrinter):
                 pre_ref_resolution_callback=kwargs_callback,
                 is_main_model=is_main_model,
             )
+            if is_main_model and hasattr(model, "_tx_model_repository"):
+                from textx.scoping import get_included_models
 
-        for p in self._model_processors:
-            p(model, self)
+                loaded_models = [
+                    m for m in get_included_models(model) if id(m) not in cached_ids
+                ]
+
+        try:
+            for p in self._model_processors:
+                p(model, self)
+        except:  # noqa
+            if loaded_models:
+                # A model processor failed on a freshly loaded main model.
+                # As for any other failing load, the models loaded by it must
+                # not stay cached in the (global) repositories.
+                from textx.scoping import remove_models_from_repositories
+
+                remove_models_from_repositories(loaded_models, loaded_models)
+            raise
 
         return model
 
